@@ -37,14 +37,50 @@ func isCodecType(t types.Type) bool {
 	return n != nil && n.Obj().Name() == "IO" && n.Obj().Pkg() != nil && strings.HasSuffix(n.Obj().Pkg().Path(), "/iface")
 }
 
-// structBases: pointer-to-struct values in the backward slice of v whose pointee is the named struct.
+// structBases: the struct objects (by pointer identity) that v can denote: allocations, what first-party helpers
+// return, phi merges. The contents of the struct's fields are not followed.
 func structBases(v ssa.Value, st *types.Named) map[ssa.Value]bool {
 	out := map[ssa.Value]bool{}
-	for x := range backSlice(v, nil) {
+	seen := map[ssa.Value]bool{}
+	var walk func(x ssa.Value, depth int)
+	walk = func(x ssa.Value, depth int) {
+		if x == nil || seen[x] || depth > 8 {
+			return
+		}
+		seen[x] = true
 		if pt, ok := x.Type().Underlying().(*types.Pointer); ok && namedOf(pt.Elem()) == st {
 			out[x] = true
 		}
+		switch y := x.(type) {
+		case *ssa.Phi:
+			for _, e := range y.Edges {
+				walk(e, depth+1)
+			}
+		case *ssa.ChangeType:
+			walk(y.X, depth+1)
+		case *ssa.MakeInterface:
+			walk(y.X, depth+1)
+		case *ssa.UnOp:
+			if y.Op == token.MUL {
+				if a, ok := y.X.(*ssa.Alloc); ok {
+					for _, s := range cellStores(a) {
+						walk(s.Val, depth+1)
+					}
+				}
+			}
+		case *ssa.Call:
+			if cal := y.Call.StaticCallee(); cal != nil && len(cal.Blocks) > 0 {
+				for _, b := range cal.Blocks {
+					if ret, ok := b.Instrs[len(b.Instrs)-1].(*ssa.Return); ok {
+						for _, rv := range ret.Results {
+							walk(rv, depth+1)
+						}
+					}
+				}
+			}
+		}
 	}
+	walk(v, 0)
 	return out
 }
 
